@@ -61,14 +61,31 @@ structure Entry where
   p : Option Rat
   kw : Dict V
   s : Rat
+  ip : Dict V := []
+  il : Dict V := []
+  pm : List (Nat × List Rat) := []     -- PMF answers: for n actions the weights to answer with
 
 def parseEntry (j : Json) : Except String Entry := do
   let kw ← (← arr (← field j "kw")).mapM (fun p => do
     match p with
     | .arr #[k, v] => pure ((← str k), (← str v))
     | _ => throw "kw entry")
+  let kvs (name : String) : Except String (Dict V) := do
+    match j.getObjVal? name with
+    | .ok (.arr ps) => ps.toList.mapM (fun p => do
+        match p with
+        | .arr #[k, v] => pure ((← str k), (← str v))
+        | _ => throw "info entry")
+    | _ => pure []
   pure { idx := (← nat (← field j "idx")), free := (← str (← field j "free")),
-         p := (← opt ratOfJson (fieldD j "p" Json.null)), kw := kw, s := (← ratOfJson (← field j "s")) }
+         p := (← opt ratOfJson (fieldD j "p" Json.null)), kw := kw, s := (← ratOfJson (← field j "s")),
+         ip := (← kvs "ip"), il := (← kvs "il"),
+         pm := (← match j.getObjVal? "pm" with
+           | .ok (.arr ps) => ps.toList.mapM (fun p => do
+               match p with
+               | .arr #[n, ws] => pure ((← nat n), (← ratList ws))
+               | _ => throw "pm entry")
+           | _ => pure []) }
 
 /-- the scripted learner: state = (number of predicts, number of scores) answered so far -/
 def scripted (script : List Entry) (hasScore : Bool) : Learner (Nat × Nat) V :=
@@ -80,6 +97,29 @@ def scripted (script : List Entry) (hasScore : Bool) : Learner (Nat × Nat) V :=
         | some (x :: xs) => (x :: xs).getD (e.idx % (x :: xs).length) x
         | _ => e.free
       ((st.1 + 1, st.2), { action := a, prob := e.p, kw := e.kw }),
+    score := fun st _ _ _ => ((st.1, st.2 + 1), (entry st.2).s),
+    learn := fun st _ _ _ _ _ => st }
+
+/-- the scripted learner also writing `learning_info`: `predict` writes the `ip` of the entry it answers with, `learn`
+writes the `il` of the entry at the current script position -/
+def scriptedI (script : List Entry) (hasScore : Bool) : InfoLearner (Nat × Nat) V :=
+  let entry (k : Nat) : Entry := script.getD (k % script.length) { idx := 0, free := "null", p := none, kw := [], s := 0 }
+  { toLearner := scripted script hasScore,
+    pinfo := fun st _ _ => (entry st.1).ip,
+    linfo := fun st _ _ _ _ _ => (entry st.1).il }
+
+/-- the scripted learner answering with PMFs (`{'pmf': …}` with or without kwargs) -/
+def scriptedPmf (script : List Entry) (hasScore : Bool) : PmfLearner (Nat × Nat) V :=
+  let entry (k : Nat) : Entry := script.getD (k % script.length) { idx := 0, free := "null", p := none, kw := [], s := 0 }
+  { hasScore := hasScore,
+    predict := fun st _ acts =>
+      let e := entry st.1
+      let n := match acts with
+        | some as => as.length
+        | none => 0
+      ((st.1 + 1, st.2), (match e.pm.lookup n with
+        | some ws => ws
+        | none => []), e.kw),
     score := fun st _ _ _ => ((st.1, st.2 + 1), (entry st.2).s),
     learn := fun st _ _ _ _ _ => st }
 
@@ -132,7 +172,8 @@ def errJson : Err → Json
 def outJson : Outcome ((Nat × Nat) × List (Call V) × List (Row V RTab)) → Json
   | .rejected ks => obj [("kind", Json.str "error"), ("err", Json.str "missing"), ("missing", ofList Json.str ks)]
   | .crashed e => errJson e
-  | .ok (_, cs, rs) => obj [("kind", Json.str "ok"), ("calls", ofList callJson cs), ("rows", ofList rowJson rs)]
+  | .ok (st, cs, rs) => obj [("kind", Json.str "ok"), ("calls", ofList callJson cs), ("rows", ofList rowJson rs),
+                            ("state", Json.arr #[ofNat st.1, ofNat st.2])]
 
 /-- request: {"cfg":{learn,eval,record}, "batch":null|n, "env":[[[key,fld]…]…], "learner":{has_score, script},
 "s0":[p,s] (optional: script position of the learner when the evaluation starts — later evaluations of a history)}
@@ -161,7 +202,40 @@ def handle (req : Json) : Except String Json := do
       (specRun cfg (mkFlags first) L s0 (env.map view)).map (fun r =>
         outJson (.ok (r.1, r.2.1, r.2.2.filter (fun o => !o.isEmpty))))
   let modelU := evaluate cfg L none env s0
-  pure (obj [("model", outJson model), ("hyp", Json.bool hyp), ("spec", ofOpt id spec),
+  let specB : Option Json := match env, bs with
+    | first :: _, some n =>
+      (specRunB cfg (mkFlags first) L s0 ((chunks n env).map (List.map view))).map (fun r =>
+        outJson (.ok (r.1, r.2.1, r.2.2.filter (fun o => !o.isEmpty))))
+    | _, _ => none
+  -- a whole history in one request: {"history":[{"cfg","batch","env"}…]} evaluated by `runHistory` from s0
+  let hist : Json ← match req.getObjVal? "history" with
+    | .ok (.arr eps) => do
+      let es ← eps.toList.mapM (fun e => do
+        let cj ← field e "cfg"
+        let c : Config := { learn := (← parseLearn (fieldD cj "learn" Json.null)),
+                            eval := (← parseEval (fieldD cj "eval" Json.null)), record := (← strList (← field cj "record")) }
+        let b ← opt nat (fieldD e "batch" Json.null)
+        let ev ← (← arr (← field e "env")).mapM parseDict
+        pure ({ cfg := c, bs := b, env := ev } : Episode V RTab))
+      pure (ofList outJson (runHistory L s0 es))
+    | _ => pure Json.null
+  let modelI : Json := match evaluateI cfg (scriptedI script L.hasScore) env s0 with
+    | .ok r => outJson (.ok (r.1, r.2.1, r.2.2.1))
+    | .rejected ks => outJson (.rejected ks)
+    | .crashed e => outJson (.crashed e)
+  -- PMF learner: SafeLearner(learner, seed) draws with CobaRandom(seed), fresh for every evaluation
+  let modelP : Json ← match lj.getObjVal? "pmf_seed" with
+    | .ok sj => do
+      let seed ← int sj
+      let LP := wrapPmf (scriptedPmf script L.hasScore) "null"
+      pure (match evaluate cfg LP bs env (s0, Coba.C05.normInt seed) with
+        | .ok r => outJson (.ok (r.1.1, r.2.1, r.2.2))
+        | .rejected ks => outJson (.rejected ks)
+        | .crashed e => outJson (.crashed e))
+    | .error _ => pure Json.null
+  pure (obj [("model", outJson model), ("hyp", Json.bool hyp), ("spec", ofOpt id spec), ("specB", ofOpt id specB),
+             ("modelI", modelI), ("modelP", modelP),
+             ("history", hist),
              ("unbatched", outJson modelU),
              ("required", ofList Json.str (required cfg L.hasScore)),
              ("requiredS", ofList Json.str (requiredS cfg L.hasScore))])
